@@ -27,8 +27,12 @@ func init() {
 		Level: "exploration",
 		Rule: "one evaluation = one simulated execution: 2-4 client tasks issue 2-6 UpdateParameter/ParameterData/Artifact calls each on a real graph.Instance over a generated multi-level graph, " +
 			"interleaved by the seeded scheduler (policies: random, PCT, round-robin, starve-one, newest-first, sticky) at the hooks around the producer lock and inside every node processor, under the race detector; " +
-			"the recorded history is checked by porcupine against a sequential model. distinct_nontrivial = distinct schedule signatures (hash of the (step, task, site) sequence) in which operations of two clients overlapped in time",
-		Scenarios: []ScenCfg{{Name: "graph-clients", Race: true, Chunk: 80, QuickRuns: 16000, QuickS: 60, ThoroughRuns: 400000, ThoroughS: 1200, Procs: 4, DetQuick: 24, DetThorough: 120}},
+			"the recorded history is checked by porcupine against a sequential model; (server-clients) the same with every call issued as a request to the edit server's own handlers. distinct_nontrivial = distinct schedule signatures (hash of the (step, task, site) sequence) in which operations of two clients overlapped in time",
+		Scenarios: []ScenCfg{
+			{Name: "graph-clients", Race: true, Chunk: 80, QuickRuns: 16000, QuickS: 60, ThoroughRuns: 400000, ThoroughS: 1200, Procs: 4, DetQuick: 24, DetThorough: 120},
+			// the same graphs, plans and oracles with every call served by the edit server's own request handlers
+			{Name: "server-clients", Race: true, Chunk: 80, QuickRuns: 8000, QuickS: 40, ThoroughRuns: 200000, ThoroughS: 600, Procs: 4, DetQuick: 24, DetThorough: 120},
+		},
 		Assumptions: []string{
 			"schedules are explored at the granularity of the yield points (around the producer lock, between two input reads of every harness processor, around the client calls); finer-grained atomicity violations surface only through the race detector",
 			"race detection is ThreadSanitizer's happens-before analysis over the executed schedule",
@@ -36,8 +40,8 @@ func init() {
 			"harness node types (LeafData, MixData, ProdData) stand in for user nodes; Instance, nodes.Struct, parameter.Value are real",
 		},
 		RealVsStub: map[string]string{
-			"real": "generator/graph.Instance (UpdateParameter, ParameterData, Artifact, AddProducer), nodes.Struct caching/versioning, parameter.Value, sync.Mutex, Go runtime scheduler primitives",
-			"stub": "detsched (who runs next), harness node processors and text artifact, client loops; the HTTP/WebSocket front end is not part of the simulation",
+			"real": "generator/graph.Instance (UpdateParameter, ParameterData, Artifact, AddProducer), nodes.Struct caching/versioning, parameter.Value/File, basics.TextNode/BinaryNode, sync.Mutex, Go runtime scheduler primitives; server-clients: generator.parameterValueEndpoint, AppServer.ProducerEndpoint, generator/endpoint request readers/response writers and panic recovery",
+			"stub": "detsched (who runs next), harness node processors and text artifact, client loops; in the server-clients scenario the edit server's real handlers for parameter and producer values serve every call (net/http/httptest request and recorder instead of a socket; the mux, autosave, the WebSocket hub and its 200 ms timer are not part of the simulation)",
 		},
 		RequiredProbes: []string{"probe:overlapping-operations", "probe:call-arrived-during-evaluation", "porcupine:Ok"},
 		TimeUnit:       "scheduler steps (one released task per step)",
